@@ -191,3 +191,79 @@ Proof.
       intros E; inversion E; subst. right. exists ntd. cbn. auto.
   - intros E; inversion E; subst. left; reflexivity.
 Qed.
+
+(* ------------------------------------------------------------------------------------ *)
+(* C04: fork detection against the remembered last-N headers *)
+
+(* the fork point is the highest-positioned reorg header the client remembers under the same hash *)
+Lemma find_fork_spec l stored n :
+  find_fork l stored = Some n ->
+  exists h l1 l2, l = l1 ++ (n, h) :: l2 /\ lookup n stored = Some h /\
+                  forall n' h', In (n', h') l1 -> lookup n' stored <> Some h'.
+Proof.
+  induction l as [|[k h] l IH]; intros H; [discriminate|]. cbn [find_fork] in H.
+  destruct (lookup k stored) as [h'|] eqn:L.
+  - destruct (N.eqb_spec h h') as [->|Hne].
+    + inversion H; subst. exists h', [], l. split; [reflexivity|]. split; [exact L|]. intros ? ? [].
+    + destruct (IH H) as (h0 & l1 & l2 & E & Lk & Hall). exists h0, ((k, h) :: l1), l2.
+      split; [rewrite E; reflexivity|]. split; [exact Lk|].
+      intros n' h1 [Hin|Hin]; [inversion Hin; subst; rewrite L; congruence | exact (Hall _ _ Hin)].
+  - destruct (IH H) as (h0 & l1 & l2 & E & Lk & Hall). exists h0, ((k, h) :: l1), l2.
+    split; [rewrite E; reflexivity|]. split; [exact Lk|].
+    intros n' h1 [Hin|Hin]; [inversion Hin; subst; rewrite L; discriminate | exact (Hall _ _ Hin)].
+Qed.
+
+Lemma find_fork_none l stored :
+  find_fork l stored = None -> forall n h, In (n, h) l -> lookup n stored <> Some h.
+Proof.
+  induction l as [|[k h] l IH]; intros H n h0 Hin; [contradiction|]. cbn [find_fork] in H.
+  destruct Hin as [Hin|Hin].
+  - inversion Hin; subst. destruct (lookup n stored) as [h'|]; [|discriminate].
+    destruct (N.eqb_spec h0 h'); [discriminate | congruence].
+  - destruct (lookup k stored) as [h'|]; [destruct (h =? h'); [discriminate|]|]; exact (IH H _ _ Hin).
+Qed.
+
+(* records of pending matched blocks: those starting above the fork point are dropped, the rest kept *)
+Lemma sweep_matched_spec to : forall records kept fk,
+  sweep_matched to records = (kept, fk) ->
+  exists dropped, records = dropped ++ kept /\ (forall s, In s dropped -> to < s) /\
+                  match kept with [] => fk = None | s :: _ => fk = Some s /\ s <= to end.
+Proof.
+  induction records as [|s tl IH]; intros kept fk H.
+  - inversion H; subst. exists []. split; [reflexivity|]. split; [intros ? []|reflexivity].
+  - cbn [sweep_matched] in H. destruct (N.ltb_spec to s) as [Hlt|Hge].
+    + destruct (IH _ _ H) as (d & E & Hd & Hk). exists (s :: d). split; [rewrite E; reflexivity|].
+      split; [intros x [<-|Hx]; [exact Hlt | exact (Hd _ Hx)] | exact Hk].
+    + inversion H; subst. exists []. split; [reflexivity|]. split; [intros ? []|]. split; [reflexivity | exact Hge].
+Qed.
+
+(* one statement of what a fork switch does to the stored tip, last-N headers, pending records and the
+   index rollback it orders *)
+Lemma commit_fork_switch st new_ps r0 rs st' rb committed :
+  ps_reorg new_ps = r0 :: rs ->
+  commit st new_ps = Ok (committed, st', rb) ->
+  (exists new_td, vtd (ps_last new_ps) = Ok new_td /\
+   if st_td st <? new_td then
+     match find_fork (rev (r0 :: rs)) (st_lastn st) with
+     | Some to =>
+         committed = true /\ st_tip st' = key_of (ps_last new_ps) /\ st_lastn st' = ps_lasts new_ps /\
+         st_td st' = new_td /\
+         (exists dropped, st_matched st = dropped ++ st_matched st' /\ (forall s, In s dropped -> to < s) /\
+            match st_matched st' with
+            | [] => rb = Some (to + 1)
+            | s :: _ => s <= to /\ rb = Some (s + 1)
+            end)
+     | None => committed = false /\ st' = st /\ rb = None
+     end
+   else committed = true /\ st' = st /\ rb = None).
+Proof.
+  intros Hr H. unfold commit in H. destruct (vtd (ps_last new_ps)) as [new_td| |] eqn:V; cbn [bind] in H; try discriminate.
+  exists new_td. split; [reflexivity|]. destruct (st_td st <? new_td).
+  - rewrite Hr in H. destruct (find_fork _ _) as [to|] eqn:F.
+    + destruct (sweep_matched to (st_matched st)) as [kept fk] eqn:S. inversion H; subst; clear H.
+      cbn [st_tip st_lastn st_td st_matched]. repeat (split; [reflexivity|]).
+      destruct (sweep_matched_spec _ _ _ _ S) as (d & E & Hd & Hk). exists d. split; [exact E|]. split; [exact Hd|].
+      destruct kept as [|s k]; [rewrite Hk; reflexivity|]. destruct Hk as [-> Hle]. split; [exact Hle | reflexivity].
+    + inversion H; subst. repeat split.
+  - inversion H; subst. repeat split.
+Qed.
